@@ -393,7 +393,7 @@ public:
         if (isa<CXXNullPtrLiteralExpr>(s)) { K("Null", s); return; }
         if (auto* x = dyn_cast<ArraySubscriptExpr>(s)) {
             K("Idx", s);
-            children("c", {x->getBase(), x->getIdx()});
+            children("c", {x->getLHS(), x->getRHS()});
             return;
         }
         if (auto* x = dyn_cast<CXXConstructExpr>(s)) {
